@@ -7,7 +7,7 @@ namespace Lungo.Conc
 
 /-- program counters at which an actor holds `e.mutex` -/
 def EHold (pc : Pc) : Prop :=
-  pc = .bCheck ∨ pc = .bSessLock ∨ pc = .bSessRead ∨ pc = .bPost ∨ pc = .cCheck ∨ pc = .cStore ∨
+  pc = .bCheck ∨ pc = .bPost ∨ pc = .cCheck ∨ pc = .cStore ∨
   pc = .aBody ∨ pc = .clKill ∨ pc = .kBody
 
 /-- local states in which an actor holds the writer token itself (between a successful
@@ -56,32 +56,61 @@ macro "conc_simp" : tactic => `(tactic|
   simp only [State.put, State.putS, State.finish, State.write, upd_apply, Eng.unlock, Eng.release,
     Local.back, Local.invoke, EHold, THold, SHold, BeginWf, if_true, if_false, ite_true, ite_false] at *)
 
+/-- goal-only version of `conc_simp` (hypotheses are unfolded once, before the case split) -/
+macro "conc_gsimp" : tactic => `(tactic|
+  simp only [State.put, State.putS, State.finish, State.write, upd_apply, Eng.unlock, Eng.release,
+    Local.back, Local.invoke, EHold, THold, SHold, BeginWf, if_true, if_false, ite_true, ite_false])
+
 /-- close a goal `P ((upd loc a l') b) …` by cases on `b = a` -/
 macro "by_actor" b:ident a:ident : tactic => `(tactic| (
   by_cases hba : $b = $a
   · subst hba
-    conc_simp
+    (try conc_gsimp)
     grind
   · have hab : ¬ $a = $b := fun h => hba h.symm
-    simp only [State.put, State.putS, State.finish, State.write, upd_apply, if_neg hba, if_neg hab] at *
-    conc_simp
+    (try simp only [State.put, State.putS, State.finish, State.write, upd_apply, if_neg hba, if_neg hab])
+    (try conc_gsimp)
     grind))
 
-macro "inv1_close" h1:ident h2:ident h5:ident h6:ident a:ident : tactic => `(tactic| (
+/-- like `by_actor`, trying the frame case `exact h` first when `b ≠ a` -/
+macro "by_actor_or" h:ident b:ident a:ident : tactic => `(tactic| (
+  by_cases hba : $b = $a
+  · subst hba
+    (try conc_gsimp)
+    grind
+  · have hab : ¬ $a = $b := fun h => hba h.symm
+    (try simp only [State.put, State.putS, State.finish, State.write, upd_apply, if_neg hba, if_neg hab])
+    first
+    | exact $h
+    | ((try conc_gsimp)
+       grind)))
+
+macro "inv1_close" h1:ident h2:ident h3:ident h4:ident h5:ident h6:ident a:ident : tactic => `(tactic| (
   refine ⟨fun b => ?_, fun b => ?_, ?_, ?_, fun b sid => ?_, fun b => ?_⟩
   · have hb1 := $h1 b
-    by_actor b $a
+    clear $h1 $h2 $h5 $h6
+    by_actor_or hb1 b $a
   · have hb1 := $h2 b
-    by_actor b $a
-  · conc_simp
-    grind
-  · conc_simp
-    grind
+    clear $h1 $h2 $h5 $h6
+    by_actor_or hb1 b $a
+  · first
+    | exact $h3
+    | (clear $h1 $h2 $h5 $h6
+       (try conc_gsimp)
+       grind)
+  · first
+    | exact $h4
+    | (clear $h1 $h2 $h5 $h6
+       (try conc_gsimp)
+       grind)
   · have hb1 := $h5 b sid
     have hb2 := $h6 b
-    by_actor b $a
+    have hb3 := $h5 $a sid
+    clear $h1 $h2 $h5 $h6
+    by_actor_or hb1 b $a
   · have hb1 := $h6 b
-    by_actor b $a))
+    clear $h1 $h2 $h5 $h6
+    by_actor_or hb1 b $a))
 
 /-- dispatch lemma: a step of `step` is a step of exactly one sub-machine, with the pc known -/
 theorem step_cases {s s' : State} {a : ActorId} {c : Choice} (hs : step s a c = some s') :
